@@ -42,6 +42,7 @@ def plan(tier, seed):
                 jobs.append({'fn': 'dwt_grad', 'cfg': {'cls': cls, 'mode': m, 'needs': nd}, 'grid': grid})
     return {
         'groups': gs,
+        'lean_lemmas': ['adjoint_of_comp', 'adjoint_of_add'],
         'native': [('bounded.py', [write_jobs('C05', jobs), seed], 'bounded: autograd through the real Functions vs J^T g assembled from the real forward')],
         'level': 'proof', 'trusted_base': TRUSTED,
         'assumptions': ASSUMPTIONS + [
